@@ -318,14 +318,16 @@ def interferometer_cmds(rng, N, kind):
     return out
 
 
-def x_general_program(rng, N):
+DEFECTS = ["meas:partial", "meas:homodyne", "bad:pre-op", "bad:s2-pair", "bad:sgate", "bad:dgate", "bad:odd",
+           "U:mismatch", "U:mixing", "U:single-half", "phase-differs", "bad:post-op"]
+
+
+def x_general_program(rng, N, defect="random"):
     """squeezers (any multiplicity, order, phases, daggers) + interferometer + measurement.
     Either a fully admissible program (55%), or an admissible one with exactly ONE defect, so that each
     rejection path of the compilers is reached on an otherwise valid input."""
-    defect = None
-    if rng.random() < 0.45:
-        defect = rng.choice(["meas:partial", "meas:homodyne", "bad:pre-op", "bad:s2-pair", "bad:sgate", "bad:dgate", "bad:odd",
-                             "U:mismatch", "U:mixing", "U:single-half", "phase-differs", "bad:post-op"])
+    if defect == "random":
+        defect = rng.choice(DEFECTS) if rng.random() < 0.45 else None
     tags = []
     sq = []
     mult = []
@@ -585,26 +587,34 @@ def classify_state_change(spec, compiler, ccmds, s_cmp, K):
     if compiler == "Xunitary" and s2_lost(spec, ccmds):
         return "s2-merge:squeezer-lost"
     if has_dagger(spec):
-        # is the compiled state exactly what the source would give with the daggers of the affected gates dropped?
+        # is the compiled state exactly what the source would give with the daggers of some gates dropped?
         cnt = {}
         for c in spec["cmds"]:
             if c[0] == "S2gate":
                 cnt[tuple(c[2])] = cnt.get(tuple(c[2]), 0) + 1
-        stripped = copy.deepcopy(spec)
-        s2_merge = False
-        for c in stripped["cmds"]:
-            if c[3] and c[0] == "S2gate" and compiler == "Xunitary":
-                if cnt[tuple(c[2])] >= 2:
+
+        def matches(stripped):
+            try:
+                s_str = gaussian_state(spec["n"], build_program(stripped).circuit)
+                return states_equal(s_str, s_cmp) or same_photon_stats(s_str, s_cmp, K)[0]
+            except Exception:
+                return False
+        # H1: only the daggers of squeezers that take part in a merge are lost (Xunitary's r += op.p[0])
+        if compiler == "Xunitary":
+            h1 = copy.deepcopy(spec)
+            changed = False
+            for c in h1["cmds"]:
+                if c[3] and c[0] == "S2gate" and cnt[tuple(c[2])] >= 2:
                     c[3] = False
-                    s2_merge = True
-            elif c[3]:
-                c[3] = False
-        try:
-            s_str = gaussian_state(spec["n"], build_program(stripped).circuit)
-            if states_equal(s_str, s_cmp) or same_photon_stats(s_str, s_cmp, K)[0]:
-                return "s2-merge:dagger-ignored" if s2_merge and not any(c[3] for c in spec["cmds"] if c[0] != "S2gate") else "dagger-ignored"
-        except Exception:
-            pass
+                    changed = True
+            if changed and matches(h1):
+                return "s2-merge:dagger-ignored"
+        # H2: every dagger is lost
+        h2 = copy.deepcopy(spec)
+        for c in h2["cmds"]:
+            c[3] = False
+        if matches(h2):
+            return "dagger-ignored"
     return "state-changed"
 
 
@@ -850,7 +860,9 @@ def check_borealis_case(ctx, case, K):
                 shifted[loop] += 1
                 odd[loop].append(j)
         corr_prev = corr
-    # same experiment
+    # same experiment (a source that stops before its measurement is not a complete experiment: nothing to compare)
+    if case.get("mut") in ("no-measure", "no-last-bs"):
+        return "ok", compensated
     try:
         s_src, s_cmp = tdm_state(prog), tdm_state(compiled)
         same, dev_ = same_photon_stats(s_src, s_cmp, K)
@@ -959,7 +971,7 @@ def search(ctx):
     rng = ctx.rng
     # (the corpus is replayed by the framework through replay() before correspondence and search)
     # X series
-    n_x = ctx.budget(260, 1200)
+    n_x = ctx.budget(260, 1000)
     sizes = [1, 2, 2, 3, 3, 4, 4] + ([5] if not ctx.quick else [])
     for it in range(n_x):
         N = rng.choice(sizes)
@@ -978,8 +990,17 @@ def search(ctx):
         nontriv = out == "ok" and any(t.startswith(("dup", "zero", "dagger")) or (t.startswith("U:") and t != "U:none") or t.startswith("template") for t in tags)
         ctx.case({"N": N, "compiler": compiler, "tags": tags, "device": None if dev_spec is None else {k: dev_spec[k] for k in ("modes", "compiler")}, "outcome": out,
                   "cmds": [[c[0], c[2], c[3]] for c in spec["cmds"]]}, nontrivial=nontriv, bucket="x:%s:%s" % (compiler, out))
+    # every rejection path on an otherwise admissible program, no device (so that nothing else can reject it)
+    for rep in range(ctx.budget(1, 4)):
+        for defect in DEFECTS:
+            for compiler in ("Xunitary", "Xcov"):
+                N = rng.choice([2, 2, 3, 4])
+                tags, spec = x_general_program(rng, N, defect=defect)
+                out = check_x_case(ctx, tags, spec, None, compiler, 2)
+                ctx.case({"N": N, "compiler": compiler, "tags": tags, "device": None, "outcome": out, "cmds": [[c[0], c[2], c[3]] for c in spec["cmds"]]},
+                         nontrivial=False, bucket="x-defect:%s:%s:%s" % (compiler, defect, out))
     # borealis
-    n_b = ctx.budget(60, 400)
+    n_b = ctx.budget(60, 300)
     for it in range(n_b):
         case = gen_borealis_case(rng, T=None if ctx.quick else rng.choice([4, 8, 12, 20, 30, 45]))
         out, comp = check_borealis_case(ctx, case, 2)
@@ -1403,10 +1424,13 @@ def s2_predicate(inp, res):
         want_r = sum(r for r, _ in groups.get(i, []))
         g = got.get((i, i + N), [])
         if len(g) != 1 or abs(g[0][0] - want_r) > 1e-9:
-            return ("xunitary:s2-merge:squeezer-lost", "Xunitary's merge of repeated S2gates on %d pairs returns %r for pair (%d,%d); "
+            # the recorded defect needs repeated squeezers on two or more pairs; anything else is a different failure
+            return ("xunitary:s2-merge:squeezer-lost" if ndup >= 2 else "xunitary:s2-stage:wrong-squeezers",
+                    "Xunitary's S2gate stage (repeated S2gates on %d pairs) returns %r for pair (%d,%d); "
                     "expected a single S2gate with r = %r" % (ndup, g, i, i + N, want_r))
     if len(res[1]) != N:
-        return ("xunitary:s2-merge:squeezer-lost", "Xunitary returns %d S2gates for %d pairs" % (len(res[1]), N))
+        return ("xunitary:s2-merge:squeezer-lost" if ndup >= 2 else "xunitary:s2-stage:wrong-squeezers",
+                "Xunitary returns %d S2gates for %d pairs" % (len(res[1]), N))
     return None
 
 
@@ -1517,7 +1541,7 @@ CORR = {"validate": corr_validate, "modes": corr_modes, "s2": corr_s2}
 
 def correspondence(ctx):
     rng = ctx.rng
-    reps = ctx.budget(1, 6)
+    reps = ctx.budget(1, 5)
     for rep in range(reps):
         corr_validate(ctx, [gen_validate_input(rng) for _ in range(ctx.budget(150, 300))], "r%d" % rep)
         corr_modes(ctx, [gen_modes_input(rng) for _ in range(ctx.budget(150, 300))], "r%d" % rep)
